@@ -365,7 +365,7 @@ func e3GenWorkload(seed uint64, idx int, tier string) E3Workload {
 		x ^= x << 17
 		return int(x % uint64(n))
 	}
-	names := []string{"TestCrash", "TestCrash/sub case", "Тест/日本", "CON", "Test:Crash*"}
+	names := []string{"TestCrash", "TestCrash/sub case", "Тест/日本", "CON", "Test:Crash*", "com1", "T😀é/x\\y", "Test#%&'()[]", "LPT³", "T a.b..", "T-_9"}
 	maxLines := 12
 	if tier == "thorough" {
 		maxLines = 200
